@@ -15,6 +15,8 @@ use std::collections::{BTreeMap, HashSet};
 pub struct Known {
     /// (property, signature, text) of open findings
     pub open: Vec<(String, String, String)>,
+    /// replay file (relative to the verif dir) of the open finding with the same index
+    pub replay: Vec<Option<String>>,
 }
 
 impl Known {
@@ -27,16 +29,20 @@ impl Known {
                     let mut prop = String::new();
                     let mut sig = String::new();
                     let mut text = vec![];
+                    let mut replay = None;
                     for w in rest.split_whitespace() {
                         if let Some(p) = w.strip_prefix("property=") {
                             prop = p.to_string();
                         } else if let Some(s) = w.strip_prefix("sig=") {
                             sig = s.to_string();
+                        } else if let Some(s) = w.strip_prefix("replay=") {
+                            replay = Some(s.to_string());
                         } else {
                             text.push(w);
                         }
                     }
                     k.open.push((prop, sig, text.join(" ")));
+                    k.replay.push(replay);
                 }
             }
         }
